@@ -74,6 +74,39 @@ def prelude(w, d, rng, res):
     res.count("scripted_preludes")
 
 
+def defaults_prelude(w, d, rng, res):
+    """a server run with --defaults: what its users do to the two collections it made for them, followed by a restart
+    (which runs the start-up code again over what they left)."""
+    from . import gen
+    pr = w.principal.rstrip("/")
+    cal, ab = pr + "/calendars/calendar/", pr + "/contacts/addressbook/"
+    if cal not in w.cols or ab not in w.cols:
+        return
+    t = [w.new_token() for _ in range(3)]
+    w.put(cal, "first.ics", gen.ical(rng, "dflt-" + t[0], t[0], rich=False), op="put_new", uid="dflt-" + t[0], token=t[0])
+    w.put(ab, "first.vcf", gen.vcard(rng, "dflt-" + t[1], t[1], rich=False), op="put_new", uid="dflt-" + t[1], token=t[1])
+    k = rng.randrange(3)
+    if k == 0:
+        # a display name typed with a blank at the end
+        w.proppatch(ab, sets=[(X.P_DISPLAYNAME, "Contacts " + t[2] + " ")])
+    elif k == 1:
+        # the default calendar deleted and its URL used for a plain collection
+        w.delete(cal, None)
+        w.mkcol(cal, "plain")
+    else:
+        # the default address book deleted and its URL used for a calendar
+        w.delete(ab, None)
+        w.mkcol(ab, "calendar")
+    w.full_audit([cal, ab])
+    w.restart()
+    w.full_audit(None)
+    if k == 0 and ab in w.cols:
+        w.proppatch(ab, sets=[(X.P_DISPLAYNAME, "Contacts " + w.new_token())])
+        w.full_audit([ab])
+    res.count("scripted_defaults_preludes")
+    res.count("scripted_defaults_prelude:%d" % k)
+
+
 def run_history(args, monitor_classes, res, weights=None, driver_kw=None, setup=None):
     """args: {fe, prefix, seed, steps, histories, bare(bool), ...}"""
     seed = args["seed"]
@@ -82,7 +115,11 @@ def run_history(args, monitor_classes, res, weights=None, driver_kw=None, setup=
         rng = random.Random(hseed)
         base = common.mkscratch("h")
         cfg = {"fe": args["fe"], "prefix": args.get("prefix", "/"), "seed": hseed, "steps": args["steps"], "bare": args.get("bare", True)}
-        w = W.World(base, fe_kind=args["fe"], prefix=args.get("prefix", "/"), seed=hseed, agent=args.get("agent"), extra_args=args.get("extra_args", ()))
+        for k_ in ("autocreate", "weights"):
+            if args.get(k_):
+                cfg[k_] = args[k_]
+        w = W.World(base, fe_kind=args["fe"], prefix=args.get("prefix", "/"), seed=hseed, agent=args.get("agent"), extra_args=args.get("extra_args", ()),
+                    autocreate=args.get("autocreate", "autocreate"))
         w.res = res
         if args.get("server_gitconfig"):
             w.server_gitconfig = args["server_gitconfig"]
@@ -98,6 +135,8 @@ def run_history(args, monitor_classes, res, weights=None, driver_kw=None, setup=
                 if rng.random() < 0.5:
                     w.provision_bare("/user/contacts/bareab/", "addressbook", meta="file" if meta == "gitconfig" else "gitconfig")
                 w.start()
+            if w.adopt_defaults():
+                res.count("histories_with_default_collections")
             w.monitors = [mc(res, cfg) for mc in monitor_classes]
             d = D.Driver(w, rng, weights=weights, **(driver_kw or {}))
             # home sets are collections of the model too (plain, tree)
@@ -116,6 +155,7 @@ def run_history(args, monitor_classes, res, weights=None, driver_kw=None, setup=
                 w.proppatch("/user/calendars/pl0/", sets=[(X.P_DISPLAYNAME, "plain with settings")])
             d.coln = 1
             prelude(w, d, rng, res)
+            defaults_prelude(w, d, rng, res)
             if setup:
                 setup(w, d, rng)
             w.full_audit(None)
